@@ -40,6 +40,16 @@ CHECKS["C18"] = ("exploration",
     "Generated connected hole-free masks (blobs, thin, border/corner-touching), star-shaped and elliptic polygons at offsets up to 5000 px, pixelated discs, uint8 images/backgrounds with every offset container, non-negative invertible spill matrices: contour traces the boundary and refill(contour)==mask; moments/inertia ratios against exact rational moments + translation/swap/rotation laws; volume against an independent Pappus evaluation, s^3 scaling, orientation sign, analytic bounds; brightness = exact mean/SD/percentiles; crosstalk correction inverts the modelled spill-over; list/3-D/dataset routes equal the single-event functions. Exploration, not proof.",
     "Float tolerances are condition based with >=100x margin over measured error (table in notes/C18.md); compiled marching squares is black-box; one-pixel masks are a documented rejection.",
     "DESIGN.md §5 C18, notes/C18.md")
+CHECKS["C15"] = ("exploration",
+    "exhaustive enumeration of small integer-grid polygons x lattice points (exact int64 even-odd oracle with two independent rays) + Hypothesis-generated float polygons/points (exact big-integer parity) + .poly save/load round trips",
+    "Exhaustive part (both tiers): every 3-/4-gon on the 4x4 grid and every 5-gon on the 3x3 grid (128 681 polygons incl. degenerate, self-intersecting, repeated/closing vertices) x all integer and half-integer lattice points (7.4 M off-boundary checks; thorough adds 5-gons on 4x4 and 6-gons on 3x3). Generated part: 3-12 double vertices over 20 orders of magnitude, points level with vertices / next to edges; points_in_poly, PolygonFilter.filter (plain, inverted, copies) and point_in_poly must agree with exact parity, be invariant under cyclic shift/reversal/closing vertex. Persistence: 1-6 filters per file through save_all/save/file object, import_all: axes, inversion, names (incl. '=' and '[Polygon]'), identifiers, coordinates, classifications. Exploration + exhaustive small scope.",
+    "Boundary points are excluded (exact test) and points closer than 1e-12 relative to an edge are skipped and counted; compiled containment code is black-box (mutants live in the Python wrappers).",
+    "DESIGN.md §5 C15, notes/C15.md")
+CHECKS["C16"] = ("exploration",
+    "Hypothesis-generated array pairs / request relations / dataset filter histories + exact selection oracle (subset, count rule, invalid handling, reproducibility under perturbed RNG and cleared cache) + fresh-dataset differential for the event limit",
+    "Generated-input search over downsample_grid, downsample_rand and dataset histories (dict/HDF5/hierarchy child; manual, box, polygon, invalid, limit; get_downsampled_scatter lin/log, both invalid modes, ret_mask, pending settings): requests are drawn relative to the numbers of valid events, events and occupied grid cells (0, 1, <V, V, V+1, N-1, N, N+1, >N); returned values are bit-identical to input[mask], count rule per mode, invalid points only after valid ones are exhausted, same mask on a second call with cleared cache and perturbed global RNG, inputs untouched. Exploration, not proof.",
+    "Which points the grid step keeps is not asserted (only subset/count/reproducibility, as the property states); compiled code is black-box for git-diff mutants (a gcc driver mutates the generated C); two compiled defects are known findings.",
+    "DESIGN.md §5 C16, notes/C16.md")
 NOT_APPLICABLE = {}
 
 def main():
